@@ -768,7 +768,11 @@ fn update_action(input: &str) -> VResult<'_, UpdateAction> {
     })
 }
 
-/// Which Core kind the UPDATE target is bound to, when the WHERE block says.
+/// Which Core kinds the UPDATE target is bound to, when the WHERE block says.
+///
+/// A block may type one variable more than once (`NOT { ?a CONCEPT {...} }
+/// ?a ASSERTION {...}`, or a `UNION` branch), so every typing is collected and
+/// the guards below must hold for each of them, not only for the first written.
 #[derive(Clone, Copy, PartialEq, Eq)]
 enum BoundKind {
     Assertion,
@@ -778,28 +782,30 @@ enum BoundKind {
     Activity,
 }
 
-fn bound_kind_of(variable: &str, clauses: &[WhereClause]) -> Option<BoundKind> {
+fn bound_kinds_of(variable: &str, clauses: &[WhereClause], out: &mut Vec<BoundKind>) {
     for clause in clauses {
-        let found = match clause {
+        match clause {
             WhereClause::Assertion { variable: v, .. } if v == variable => {
-                Some(BoundKind::Assertion)
+                out.push(BoundKind::Assertion)
             }
-            WhereClause::Evidence { variable: v, .. } if v == variable => Some(BoundKind::Evidence),
-            WhereClause::Activity { variable: v, .. } if v == variable => Some(BoundKind::Activity),
-            WhereClause::Concept { variable: v, .. } if v == variable => Some(BoundKind::Concept),
+            WhereClause::Evidence { variable: v, .. } if v == variable => {
+                out.push(BoundKind::Evidence)
+            }
+            WhereClause::Activity { variable: v, .. } if v == variable => {
+                out.push(BoundKind::Activity)
+            }
+            WhereClause::Concept { variable: v, .. } if v == variable => {
+                out.push(BoundKind::Concept)
+            }
             WhereClause::Proposition {
                 variable: Some(v), ..
-            } if v == variable => Some(BoundKind::Proposition),
+            } if v == variable => out.push(BoundKind::Proposition),
             WhereClause::Not(inner) | WhereClause::Optional(inner) | WhereClause::Union(inner) => {
-                bound_kind_of(variable, inner)
+                bound_kinds_of(variable, inner, out)
             }
-            _ => None,
-        };
-        if found.is_some() {
-            return found;
+            _ => {}
         }
     }
-    None
 }
 
 /// Rejects the UPDATEs an engine must never be asked to perform.
@@ -808,20 +814,24 @@ fn guard_update(statement: &UpdateStatement) -> Result<(), &'static str> {
         ElementRef::Handle(name) => Some(name.as_str()),
         _ => None,
     };
-    let kind = match (target_var, &statement.where_clauses) {
-        (Some(var), Some(clauses)) => bound_kind_of(var, clauses),
-        _ => None,
-    };
+    let mut kinds: Vec<BoundKind> = Vec::new();
+    if let (Some(var), Some(clauses)) = (target_var, &statement.where_clauses) {
+        bound_kinds_of(var, clauses, &mut kinds);
+    }
 
     for action in &statement.actions {
         match action {
             UpdateAction::SetFields(assignments) => {
                 for (field, _) in assignments {
-                    guard_immutable_field(field, kind)?;
+                    for kind in &kinds {
+                        guard_immutable_field(field, Some(*kind))?;
+                    }
                 }
             }
             UpdateAction::SetStructural(_) | UpdateAction::UnsetStructural(_) => {
-                guard_structural_mutation(kind)?
+                for kind in &kinds {
+                    guard_structural_mutation(Some(*kind))?;
+                }
             }
             _ => {}
         }
@@ -1727,6 +1737,19 @@ mod tests {
         // The same field on a Concept is ordinary mutable state.
         let ok = r#"UPDATE ?c SET FIELDS { confidence: 0.1 } WHERE { ?c CONCEPT {id: "C-1"} }"#;
         assert!(parse_kml_statement(ok).is_ok());
+    }
+
+    #[test]
+    fn every_typing_of_the_update_target_is_guarded() {
+        // A second, earlier typing of the target must not shadow the one that
+        // makes the write illegal.
+        for bad in [
+            r#"UPDATE ?a SET FIELDS { confidence: 0.1 } WHERE { NOT { ?a CONCEPT {id: "C-1"} } ?a ASSERTION {id: "A-1"} }"#,
+            r#"UPDATE ?a SET FIELDS { confidence: 0.1 } WHERE { ?a CONCEPT {id: "C-1"} UNION { ?a ASSERTION {id: "A-1"} } }"#,
+            r#"UPDATE ?a SET STRUCTURAL { ("evidence", :e) } WHERE { OPTIONAL { ?a CONCEPT {id: "C-1"} } ?a ASSERTION {id: "A-1"} }"#,
+        ] {
+            assert!(parse_kml_statement(bad).is_err(), "accepted: {bad}");
+        }
     }
 
     #[test]
